@@ -67,18 +67,9 @@ let show_outcome f = function
   | Err e -> "err " ^ err_name e
   | Panic p -> "panic " ^ panic_name p
 
-(* diagnostics rendered as the bytes the library writes *)
+(* diagnostics rendered by the Coq model itself (Model/Diag.v) *)
 let render_diag ds =
-  let out = Buffer.create 16 and err = Buffer.create 16 in
-  List.iter (function
-    | DEntropySimpleNot n ->
-        Buffer.add_string out (Printf.sprintf "entropySimple: There must be a positive number of elements. Not %s\n" (ZA.to_string (zar_of_z n)))
-    | DDuplicates n ->
-        Buffer.add_string err (Printf.sprintf "%s duplicate words found when setting up word list generator\n" (ZA.to_string (zar_of_z n))))
-    ds;
-  let h b = let s = Buffer.contents b in
-    if s = "" then "-" else String.concat "" (List.init (String.length s) (fun i -> Printf.sprintf "%02x" (Char.code s.[i]))) in
-  Printf.sprintf "stdout=%s stderr=%s" (h out) (h err)
+  Printf.sprintf "stdout=%s stderr=%s" (hex_of_bytes (render_stream Stdout ds)) (hex_of_bytes (render_stream Log ds))
 let no_diag = "stdout=- stderr=-"
 
 let next_recipe t =
